@@ -109,8 +109,10 @@ pub fn reset(kind: u8, size: u64, code0: u64, sent_max: u64, end: u64, stopped: 
     f
 }
 
-/// C06.c / C11.b: `Recv::stop`: error if already stopped; otherwise releases exactly the unread
-/// credit `end - bytes_read`, and STOP_SENDING is wanted only while still receiving.
+/// C06.c / C11.b: `Recv::stop`: error if already stopped; otherwise releases exactly the credit that is
+/// still owed for this stream - the unread bytes `end - bytes_read`, or nothing when a RESET_STREAM has
+/// already been received (`received_reset` credited the whole final size then) - and STOP_SENDING is
+/// wanted only while still receiving.
 pub fn stop(kind: u8, size: u64, sent_max: u64, end: u64, bytes_read: u64, stopped: bool) -> u32 {
     if !valid_recv(kind, size, 7, sent_max, end, bytes_read) {
         return 0;
@@ -125,7 +127,7 @@ pub fn stop(kind: u8, size: u64, sent_max: u64, end: u64, bytes_read: u64, stopp
         }
         Ok((credits, tx)) => {
             assert!(!stopped);
-            assert!(credits == end - bytes_read);
+            assert!(credits == if kind == 2 { 0 } else { end - bytes_read });
             assert!(tx.0 == (kind != 2));
             assert!(r.stopped);
             assert!(r.stop().is_err());
